@@ -19,6 +19,44 @@ import traceback
 import core
 
 
+def _start_watchdog(repo: str, limit: float) -> None:
+    """If the main thread has made no progress (no case registered, no model call, no counter) for `limit`
+    seconds AND is currently executing code of the implementation under test, interrupt it: a call into
+    lightworks that does not return is reported like an unexpected exception raised there.  Slow harness or
+    model code is never interrupted (the time caps handle that)."""
+    import signal
+    import threading
+    import time as _t
+
+    impl_root = os.path.realpath(os.path.join(repo, "lightworks")) + os.sep
+    main_id = threading.main_thread().ident
+
+    def on_signal(signum, frame):  # noqa: ARG001
+        raise core.ImplementationStall(f"the implementation has not returned for more than {limit:.0f} s")
+
+    signal.signal(signal.SIGUSR1, on_signal)
+
+    def watch() -> None:
+        while True:
+            _t.sleep(5)
+            if _t.time() - core._PROGRESS[0] < limit:
+                continue
+            fr = sys._current_frames().get(main_id)
+            inside = False
+            while fr is not None:
+                if os.path.realpath(fr.f_code.co_filename).startswith(impl_root):
+                    inside = True
+                    break
+                if fr.f_code.co_filename.startswith(os.path.dirname(os.path.abspath(__file__))):
+                    break  # innermost harness frame reached without passing through the implementation
+                fr = fr.f_back
+            if inside:
+                core.heartbeat()
+                signal.pthread_kill(main_id, signal.SIGUSR1)
+
+    threading.Thread(target=watch, daemon=True).start()
+
+
 def main() -> int:
     args = [a for a in sys.argv[1:]]
     if len(args) < 1:
@@ -43,6 +81,7 @@ def main() -> int:
                       dict(os.environ, PYTHONHASHSEED=str(hs), VERIF_REEXEC="1"))
     ctx = core.Ctx(prop, tier)
     repo = os.environ.get("LW_REPO", "/repo")
+    _start_watchdog(repo, 600 if ctx.thorough else 150)
     # line coverage of the implementation (started before lightworks is imported so that module-level
     # statements are not reported as missing)
     cov = core.ImplCoverage(prop, repo) if (ctx.thorough or os.environ.get("VERIF_COVERAGE")) and not replay else None
@@ -81,7 +120,7 @@ def main() -> int:
     except core.MachineryFault as e:
         print(f"MACHINERY-FAULT property={prop}: {e}", flush=True)
         return 2
-    except Exception:  # noqa: BLE001
+    except (Exception, core.ImplementationStall):  # noqa: BLE001
         traceback.print_exc()
         if ctx.violations and "audit" in locals() and "mod" in locals():
             # violations with concrete replays were already reported before the harness tripped (e.g. over
